@@ -14,6 +14,9 @@
 -/
 import AioftpModel.Lemmas.ListingErr
 import AioftpModel.Generated.Client
+import AioftpModel.Model.Intake
+import AioftpModel.Properties.C10
+import AioftpModel.Properties.C17
 
 namespace C19
 open Model Model.Names Model.ListingParse Py Py.StrErr Py.Utf8
@@ -187,5 +190,57 @@ theorem passive_witnesses :
     parseEpsvResponse "(|||6446|".toList = .error .IndexError := by decide
 
 /-! ## END client-parser part (slice c08) -/
+
+
+/-! ## server / session half (outside the client-parser section)
+
+Whatever bytes a peer sends on the control channel - undecodable, over-long, unknown verbs, garbage
+arguments, premature end of stream - the multi-session model either dispatches a decoded line or ends THAT
+session; in both cases no other session changes, and the slot accounting of C10 holds after every history
+of such inputs (so the ended session's resources are back).  That the real dispatcher behaves like this
+model on raw bytes is the differential run in harness/props/c19_server.py. -/
+
+section Server
+open Model.Intake Model.Counters
+
+/-- **garbage_frame**: for EVERY byte string sent by session `sid`, every other session is exactly what it was -/
+theorem garbage_frame (cfg : Model.Session.Cfg) (sys : Sys) (sid : Nat) (raw : Model.Bytes) (j : Nat) (hj : j ≠ sid)
+    (hlt : j < sys.sessions.length) :
+    (sysStep cfg sys (Intake.toEvent sid raw)).sessions[j]? = sys.sessions[j]? := by
+  apply C17.frame cfg sys _ j _ hlt
+  unfold Intake.toEvent
+  cases classify raw <;> simp [C17.sidOf] <;> exact fun h => hj h.symm
+
+/-- **garbage_contained**: after ANY history of connects, control-byte chunks (of any content and length),
+    data connections and vanishing peers, the slot accounting is exact: free + holders = configured limit,
+    server-wide and per user - in particular every session that was ended by garbage has given its slots back. -/
+theorem garbage_contained (cfg : Model.Session.Cfg) (fs : Model.Fs) (ins : List Input) :
+    (∀ m, cfg.maxConn = some m →
+      ∃ f, (runBytes cfg (initSys cfg fs) ins).world.serverFree = some f ∧
+        f + holding (runBytes cfg (initSys cfg fs) ins).sessions = m) ∧
+    (∀ (u : Nat) (uc : Model.Session.UserCfg) (m : Nat), cfg.users[u]? = some uc → uc.maxConn = some m →
+      ∃ f, (runBytes cfg (initSys cfg fs) ins).world.userFree[u]? = some (some f) ∧
+        f + attached (runBytes cfg (initSys cfg fs) ins).sessions u = m) :=
+  C10.slots_invariant cfg fs (ins.map Input.toEvent)
+
+/-- undecodable, over-long and empty reads end the session and nothing else -/
+theorem bad_line_ends_session (sid : Nat) (raw : Model.Bytes)
+    (h : ∀ s, classify raw ≠ .line s) : Intake.toEvent sid raw = .finish sid := by
+  unfold Intake.toEvent
+  cases hc : classify raw with
+  | line s => exact absurd hc (h s)
+  | undecodable => rfl
+  | overlong => rfl
+  | eof => rfl
+
+/-- non-vacuity: `FF 0D 0A` is undecodable, 70 000 bytes are over-long, `PWD\r\n` is a line -/
+example : Intake.toEvent 3 [0xFF, 13, 10] = .finish 3 := by
+  have : Py.Utf8.decodeUtf8E [0xFF, 13, 10] = .error .UnicodeDecodeError := by decide
+  simp [Intake.toEvent, classify, lineLimit, this]
+example : Intake.toEvent 3 [80, 87, 68, 13, 10] = .line 3 ['P', 'W', 'D', '\r', '\n'] [] := by
+  have : Py.Utf8.decodeUtf8E [80, 87, 68, 13, 10] = .ok ['P', 'W', 'D', '\r', '\n'] := by decide
+  simp [Intake.toEvent, classify, lineLimit, this]
+
+end Server
 
 end C19
